@@ -275,6 +275,39 @@ def layout_rewrite(ri: int, pos: int) -> None:
 
 
 STRAY = [')', ']', 'stray', '=>', '}', '1.5', ':', '$', '"', 'for', '))', '\x00', '0', "''", ';', '\n', '.', ',', 'not', 'if', '%', '\\', '0.0', '==', '\r\n', '#']
+_BS = chr(92)
+# string literals with backslash sequences that are NOT escapes of the language (kept verbatim by the published lexer)
+STRAY += ['"C:' + _BS + 'users' + _BS + 'me"', '"' + _BS + 'x4"', '"' + _BS + 'N{nope}"', "'" + _BS + 'U00110000 ' + _BS + "u12'", '"' + _BS + '777' + _BS + '8"', 'r"' + _BS + 'x"']
+
+
+def first_error_index(parser, types):
+    """index of the first token type for which the LR tables have no action (len(types) = end of input; None = accepted)"""
+    lr = parser.yacc
+    action, goto, prods, defaulted = lr.action, lr.goto, lr.productions, lr.defaulted_states
+    stack = [0]
+    seq = list(types) + ['$end']
+    i = 0
+    steps = 0
+    while steps < 100000:
+        steps += 1
+        st = stack[-1]
+        if st in defaulted:
+            a = defaulted[st]
+        else:
+            a = action[st].get(seq[i])
+        if a is None:
+            return i
+        if a > 0:
+            stack.append(a)
+            i += 1
+        elif a < 0:
+            p = prods[-a]
+            if p.len:
+                del stack[-p.len:]
+            stack.append(goto[stack[-1]][p.name])
+        else:
+            return None
+    return None
 
 
 def _damage(pi, si, pos, sep, trunc, pre_list, cached, class_only, soundness=False):
@@ -301,11 +334,21 @@ def _damage(pi, si, pos, sep, trunc, pre_list, cached, class_only, soundness=Fal
         list(P.list_names("x\ny\n(z"))
     seen = {}
     orig = P.yacc.errorfunc
+    raw = []
+    cls = type(P.lex)
+    orig_token = cls.token
 
     def rec(p):
         seen['tok'] = p
         return orig(p)
+
+    def recording(self):
+        t = orig_token(self)
+        if t is not None:
+            raw.append((t.type, t.value, t.lexpos))
+        return t
     P.yacc.errorfunc = rec
+    cls.token = recording
     try:
         try:
             P.parse(text)
@@ -316,6 +359,7 @@ def _damage(pi, si, pos, sep, trunc, pre_list, cached, class_only, soundness=Fal
             res = ('other', type(e).__name__ + ': ' + str(e))
     finally:
         P.yacc.errorfunc = orig
+        cls.token = orig_token
     if res[0] == 'other':
         return "%r: %s" % (text, res[1])
     if soundness:
@@ -332,6 +376,16 @@ def _damage(pi, si, pos, sep, trunc, pre_list, cached, class_only, soundness=Fal
         return None
     if res[0] == 'parser_error' and res[2] != 'none':
         tok = res[2]
+        # the OFFENDING token, determined independently of what reaches p_error: the first token the lexer produced at
+        # which the LR automaton (the parser's own tables, driven here by a plain loop) has no action
+        k = first_error_index(P, [t[0] for t in raw])
+        if k is not None and k < len(raw):
+            want = raw[k]
+            if tok is None or tok.lexpos != want[2]:
+                return "%r: the first token without a continuation is %r at offset %d, but the error reports %s" % (
+                    text, want[1], want[2], 'end of input' if tok is None else '%r at offset %d' % (tok.value, tok.lexpos))
+        if k is not None and k >= len(raw) and tok is not None:
+            return "%r: every token has a continuation (the text ends too early), but the error reports %r at offset %d" % (text, tok.value, tok.lexpos)
         if tok is None:
             if 'end of input' not in res[1].lower():
                 return "error at the very end of %r is not reported as unexpected end of input: %s" % (text, res[1])
@@ -346,7 +400,7 @@ def _damage(pi, si, pos, sep, trunc, pre_list, cached, class_only, soundness=Fal
 
 def error_line(si: int, pos: int, sep: int, trunc: bool, pre_list: bool = False, cached: bool = False) -> None:
     """
-    pre: 0 <= si < 26 and pos == 0 and 0 <= sep <= 2
+    pre: 0 <= si < 32 and pos == 0 and 0 <= sep <= 2
     post: True
     """
     # a valid program made invalid by a stray token at a token boundary (or truncated there): the message names the
@@ -357,7 +411,7 @@ def error_line(si: int, pos: int, sep: int, trunc: bool, pre_list: bool = False,
     pi = hlib.PARAM["program"]
     class_only = bool(hlib.PARAM.get("class_only"))
     soundness = bool(hlib.PARAM.get("soundness"))
-    si, sep = hlib.concrete(si, 0, 25), hlib.concrete(sep, 0, 2)
+    si, sep = hlib.concrete(si, 0, 31), hlib.concrete(sep, 0, 2)
     trunc = True if trunc else False
     pre_list = True if pre_list else False
     cached = True if cached else False
